@@ -168,8 +168,15 @@ impl<K> Policy<K> {
             return;
         }
 
-        let victim =
-            self.lru.peek_least_recent(lru::Region::Probation).unwrap();
+        let Some(victim) = self.lru.peek_least_recent(lru::Region::Probation)
+        else {
+            // The probation region is empty (its entries were removed or
+            // moved to the pinned region), so there is no victim to duel
+            // with: the key simply returns to the probation region.
+            self.lru.move_key_to_head_of_region(unpin, lru::Region::Probation);
+
+            return;
+        };
 
         let (pinned_frequency, victim_frequency) = {
             let pinned_hash = build_hash.hash_one(unpin);
